@@ -231,6 +231,27 @@ fn gen_c09(out: &mut Out, rng: &mut Rng, thorough: bool) {
         }
         out.job(move || classify_line(&s));
     }
+    // very long strings (up to the capacity of version 40): the class of the LAST characters must count — the odd
+    // character sits at the very end, one before it, or right after a capacity / power-of-two boundary
+    let marks: [usize; 12] = [1024, 1273, 1663, 2048, 2331, 2953, 3057, 3391, 4095, 4096, 4296, 5000];
+    let reps = if thorough { 6 } else { 1 };
+    for _ in 0..reps {
+        for &m in marks.iter() {
+            for base in 0..2usize {
+                // base 0: digits then one alphanumeric; base 1: alphanumerics then one byte-only character
+                let len = m + 1 + rng.below(3);
+                let cap_next = if base == 0 { 4296 } else { 2953 };
+                if len > cap_next && !thorough { continue; }
+                for odd_at in [len - 1, m, len - 2] {
+                    let mut s: Vec<u8> = (0..len)
+                        .map(|_| if base == 0 { b'0' + rng.below(10) as u8 } else { *rng.pick(b"ABCDEFGHIJKLMNOPQRSTUVWXYZ $%*+-./:") })
+                        .collect();
+                    s[odd_at] = if base == 0 { *rng.pick(b"AZ $:") } else { *rng.pick(b"az,;@_") };
+                    out.job(move || classify_line(&s));
+                }
+            }
+        }
+    }
 }
 
 // ---------------------------------------------------------------------------------------------
@@ -982,7 +1003,7 @@ pub fn xml_view(svg: &str) -> String {
     }
 }
 
-fn small_symbol(rng: &mut Rng, caps: &[Vec<Vec<usize>>], v: usize) -> (Vec<u8>, Opts) {
+pub fn small_symbol(rng: &mut Rng, caps: &[Vec<Vec<usize>>], v: usize) -> (Vec<u8>, Opts) {
     let e = rng.below(4);
     let md = rng.below(3);
     let len = rng.range(0, caps[md][e][v]);
@@ -1033,6 +1054,7 @@ fn gen_c12(out: &mut Out, rng: &mut Rng, thorough: bool) {
 }
 
 fn gen_c18(out: &mut Out, rng: &mut Rng, thorough: bool) {
+    crate::pixops::gen_frames(out, rng, thorough);
     let caps = caps();
     // defaults: exhaustive 40 versions x 3 shapes x margins 0..16
     for v in 0..40usize {
